@@ -49,6 +49,9 @@ pub enum Case {
         rounds: Vec<Round>,
         now_lag: u8,
         intervals: Vec<u16>,
+        /// rounds submitted for a second pair of the same feed before (and between) the rounds of the judged pair
+        #[serde(default)]
+        other_pair: u8,
     },
 }
 
@@ -103,6 +106,8 @@ fn vamm_case(decimals: u8, x0: u128, y0: u128, blocks: &[Block], ctx: &Ctx, out:
         sim.next_block_nanos(DTS[(b.dt as usize) % DTS.len()], (b.ms as u64) * 1_000_000);
         let mut accepted = 0;
         for op in &b.swaps {
+            // owner actions are not trades: they must not disturb the price history either
+            let _ = super::curve::admin_churn(&mut sim, op.admin);
             let st = sim.state();
             let r = resolve(op, &st, d, &seen);
             if exec_swap(&mut sim, &r, 0).is_ok() {
@@ -183,7 +188,7 @@ struct Pd {
     timestamp: Timestamp,
 }
 
-fn feed_case(rounds: &[Round], now_lag: u8, intervals: &[u16], ctx: &Ctx, out: &mut Outcome) {
+fn feed_case(rounds: &[Round], now_lag: u8, intervals: &[u16], other_pair: u8, ctx: &Ctx, out: &mut Outcome) {
     let mut deps = mock_dependencies();
     let mut env = mock_env();
     if margined_pricefeed::contract::instantiate(deps.as_mut(), env.clone(), mock_info("owner", &[]), feed::InstantiateMsg { oracle_hub_contract: "hub".into() }).is_err() {
@@ -193,6 +198,21 @@ fn feed_case(rounds: &[Round], now_lag: u8, intervals: &[u16], ctx: &Ctx, out: &
     let mut t = env.block.time.seconds();
     let mut subs: Vec<(u64, u128)> = vec![];
     let mut pending: Vec<(u64, u128)> = vec![];
+    // a feed serves several pairs: rounds of another pair must not disturb the judged one
+    let mut other = |deps: &mut cosmwasm_std::OwnedDeps<_, _, _>, env: &cosmwasm_std::Env, t: u64, k: u64| {
+        let _ = margined_pricefeed::contract::execute(
+            deps.as_mut(),
+            env.clone(),
+            mock_info("owner", &[]),
+            feed::ExecuteMsg::AppendPrice { key: "OTHER".into(), price: Uint128::new(777 + k as u128), timestamp: t },
+        );
+    };
+    for k in 0..(other_pair % 4) as u64 {
+        other(&mut deps, &env, t, k);
+    }
+    if other_pair % 4 != 0 {
+        out.count("feed.cases_with_a_second_pair");
+    }
     for (i, r) in rounds.iter().enumerate() {
         t += [0u64, 0, 1, 15, 60, 900, 3600, 7][(r.dt as usize) % 8];
         let p = 1 + r.price as u128;
@@ -219,6 +239,9 @@ fn feed_case(rounds: &[Round], now_lag: u8, intervals: &[u16], ctx: &Ctx, out: &
             return;
         }
         subs.append(&mut pending);
+        if other_pair >= 4 && i % 2 == 0 {
+            other(&mut deps, &env, t, 100 + i as u64);
+        }
     }
     if subs.is_empty() {
         return;
@@ -350,15 +373,16 @@ impl Property for C18 {
             proptest::collection::vec((0u8..8, any::<u64>(), 0u8..4, 0u8..3).prop_map(|(dt, price, lag, b)| Round { dt, price: price % 1_000_000_000_000, batch: b == 0, lag }), 1..=10),
             0u8..8,
             proptest::collection::vec(any::<u16>(), 1..=6),
+            0u8..8,
         )
-            .prop_map(|(rounds, now_lag, intervals)| Case::Feed { rounds, now_lag, intervals });
+            .prop_map(|(rounds, now_lag, intervals, other_pair)| Case::Feed { rounds, now_lag, intervals, other_pair });
         prop_oneof![3 => vamm, 2 => feedc].boxed()
     }
     fn cases(&self, tier: Tier) -> u32 {
         tier.pick(600_000, 6_000_000)
     }
     fn rule(&self) -> String {
-        "vAMM flavour (3/5 of the cases): generated reserves and block schedules (gaps 0 s .. 11 days, so that histories and query intervals longer than a week occur; block times with a sub-second fraction) with 0-4 swaps per block through the real entry points; the harness records (block time, block-final spot) for every block with an accepted swap plus the creation entry; after each block TwapPrice{i} is queried for intervals shorter / equal / longer than the history, aligned with and just inside snapshot lifetimes: the answer must lie between the lowest and highest recorded price in effect in [now-i, now] (whole history if shorter), equal spot when the price did not change in the window, and agree (+-1) with the reference time-weighted mean over the block-final prices. Feed flavour: generated round sequences on the real price feed, submitted singly and in AppendMultiplePrice batches (non-decreasing timestamps incl. repeats, not in the future); GetTwapPrice within the bounds of the submissions overlapping the window, GetPrice = last submission, GetPreviousPrice{n} for n < rounds answers with exactly the (rounds-n)-th submission, and any successful answer for larger n would have to be a submitted round. Queries that error or panic give no value and are counted, not judged. Non-trivial: vAMM: a window starting strictly inside a snapshot's lifetime with >= 3 distinct prices in the history and a block with >= 2 swaps; feed: >= 3 submissions and a window overlapping different prices. Distinct by digest of the case.".into()
+        "vAMM flavour (3/5 of the cases): generated reserves and block schedules (gaps 0 s .. 11 days, so that histories and query intervals longer than a week occur; block times with a sub-second fraction) with 0-4 swaps per block through the real entry points; the harness records (block time, block-final spot) for every block with an accepted swap plus the creation entry; the owner's actions of C01 (market closed and re-opened, engine re-pointed, fee update) occur before 7-8% of the swaps; after each block TwapPrice{i} is queried for intervals shorter / equal / longer than the history, aligned with and just inside snapshot lifetimes: the answer must lie between the lowest and highest recorded price in effect in [now-i, now] (whole history if shorter), equal spot when the price did not change in the window, and agree (+-1) with the reference time-weighted mean over the block-final prices. Feed flavour: generated round sequences on the real price feed, submitted singly and in AppendMultiplePrice batches (non-decreasing timestamps incl. repeats, not in the future), in 7 of 8 cases with rounds of a second pair of the same feed submitted before or in between; GetTwapPrice within the bounds of the submissions overlapping the window, GetPrice = last submission, GetPreviousPrice{n} for n < rounds answers with exactly the (rounds-n)-th submission, and any successful answer for larger n would have to be a submitted round. Queries that error or panic give no value and are counted, not judged. Non-trivial: vAMM: a window starting strictly inside a snapshot's lifetime with >= 3 distinct prices in the history and a block with >= 2 swaps; feed: >= 3 submissions and a window overlapping different prices. Distinct by digest of the case.".into()
     }
     fn assumptions(&self) -> Vec<String> {
         vec!["mock dependencies stand in for the chain; block times strictly increase".into()]
@@ -367,7 +391,7 @@ impl Property for C18 {
         let mut out = Outcome::default();
         match c {
             Case::Vamm { decimals, x0, y0, blocks } => vamm_case(*decimals, *x0, *y0, blocks, ctx, &mut out),
-            Case::Feed { rounds, now_lag, intervals } => feed_case(rounds, *now_lag, intervals, ctx, &mut out),
+            Case::Feed { rounds, now_lag, intervals, other_pair } => feed_case(rounds, *now_lag, intervals, *other_pair, ctx, &mut out),
         }
         out
     }
